@@ -150,7 +150,35 @@ type Eng struct {
 // on every write and several files per snapshot, which dominates the run time on a loaded
 // disk.  Durability is not what is observed here (crash images are copies of the directory
 // tree, cut explicitly), so tmpfs loses nothing.  VERIF_ENG_TMP overrides; "" = os.TempDir().
+var sweepOnce sync.Once
+
+// sweepStale removes shard directories left behind by harness processes that were killed
+// (runner timeouts): older than three hours, so nothing that is still running.
+func sweepStale(base string) {
+	if base == "" {
+		base = os.TempDir()
+	}
+	ents, err := os.ReadDir(base)
+	if err != nil {
+		return
+	}
+	for _, e := range ents {
+		if !e.IsDir() || !strings.HasPrefix(e.Name(), "verif-eng-") {
+			continue
+		}
+		if fi, err := e.Info(); err == nil && time.Since(fi.ModTime()) > 3*time.Hour {
+			os.RemoveAll(filepath.Join(base, e.Name()))
+		}
+	}
+}
+
 func tmpBase() string {
+	b := tmpBase0()
+	sweepOnce.Do(func() { sweepStale(b) })
+	return b
+}
+
+func tmpBase0() string {
 	if d, ok := os.LookupEnv("VERIF_ENG_TMP"); ok {
 		return d
 	}
